@@ -82,7 +82,8 @@ func isTrivial(tp reflect.Type) bool {
 
 	// Check if the type itself is a pointer, slice, map, or channel
 	switch tp.Kind() {
-	case reflect.Ptr, reflect.Slice, reflect.Map, reflect.Chan, reflect.Interface, reflect.String:
+	case reflect.Ptr, reflect.Slice, reflect.Map, reflect.Chan, reflect.Interface, reflect.String,
+		reflect.Func, reflect.UnsafePointer:
 		return false
 	}
 
